@@ -14,7 +14,8 @@ RULES = {}
 ALL_FOR_SEEDS = "--all" in sys.argv  # by default a seeded change is only run through the check of the property it breaks
 
 def run_case(case, repo):
-    name, patch, own = case
+    name, patch, own = case[:3]
+    want = case[3] if len(case) > 3 else 1
     tmp = tempfile.mkdtemp(prefix="verif-regress-")
     try:
         shutil.copytree(os.path.join(repo, "src"), os.path.join(tmp, "src"), ignore=shutil.ignore_patterns("__pycache__", "*.egg-info"))
@@ -31,6 +32,8 @@ def run_case(case, repo):
         RULES[name] = rules
         if own is None:
             return name, ("ok" if not fired else "FALSE-ALARM"), fired
+        if want == 2 and fired.get(own) == 2:
+            return name, "ok", {**fired, "note": "refused (exit 2) as recorded"}
         return name, ("ok" if fired.get(own) == 1 else "MISSED"), fired
     finally:
         shutil.rmtree(tmp, ignore_errors=True)
@@ -41,7 +44,7 @@ def main():
     cases = []
     for d in sorted(glob.glob(os.path.join(VERIF, "seeded", "C*-*"))):
         meta = json.load(open(os.path.join(d, "meta.json")))
-        cases.append((os.path.basename(d), os.path.join(d, "patch.diff"), meta["breaks_property"]))
+        cases.append((os.path.basename(d), os.path.join(d, "patch.diff"), meta["breaks_property"], meta.get("expected_exit", 1)))
     for d in sorted(glob.glob(os.path.join(VERIF, "seeded", "benign", "*"))):
         if os.path.isdir(d):
             cases.append(("benign/" + os.path.basename(d), os.path.join(d, "patch.diff"), None))
